@@ -28,7 +28,7 @@ VERIF = os.path.dirname(HERE)
 CACHE = os.environ.get('OPTREE_VERIF_CACHE') or os.path.join(VERIF, '.cache')
 CLANG = 'clang++-14'
 PYBIND_INC = '/venv/lib/python3.12/site-packages/torch/include'
-IR_VERSION = '18'
+IR_VERSION = '19'
 
 CONFIGS = {
     # name: (CPython include dir, extra flags)
@@ -414,6 +414,7 @@ class _TUBuilder:
                 body = self.conv(c)
                 self._lamparent = saved
                 resolve_bool_locals(body)
+                merge_split_guards(body)
             else:
                 self._locskip(c)
         f.targs = tuple(targs)
@@ -735,6 +736,101 @@ def resolve_bool_locals(body):
                 n.x = dict(n.x, hasInit=False)
         elif n.kind == 'VarDecl' and n.id in dead:
             n.x = dict(n.x or {}, cond_alias=True)
+
+
+def _sig(n):
+    """structure of a subtree without positions (two spellings of the same exit compare equal)"""
+    if n is None:
+        return None
+    return (n.kind, n.name, n.op, n.value, (n.ref or {}).get('id'), tuple(_sig(k) for k in n.kids))
+
+
+def _effective(stmt):
+    """statements of a branch, nested plain blocks flattened, null statements and alias
+    declarations dropped"""
+    if stmt is None:
+        return []
+    if stmt.kind == 'CompoundStmt':
+        out = []
+        for k in stmt.kids:
+            if k is not None:
+                out += _effective(k)
+        return out
+    if stmt.kind == 'NullStmt':
+        return []
+    if stmt.kind == 'DeclStmt':
+        vds = [k for k in stmt.kids if k is not None]
+        if vds and all(k.kind == 'VarDecl' and (k.x or {}).get('cond_alias') for k in vds):
+            return []
+    return [stmt]
+
+
+def _plain_if(n):
+    """`if (c) S` with no else, no init-statement, no condition variable, not `if constexpr`"""
+    if n is None or n.kind != 'IfStmt':
+        return False
+    x = n.x or {}
+    if x.get('hasInit') or x.get('hasVar') or x.get('isConstexpr') or x.get('constexpr'):
+        return False
+    return len(n.kids) == 2 or (len(n.kids) == 3 and n.kids[2] is None)
+
+
+def _exit_only(stmt):
+    """the branch is one return / throw / continue / break"""
+    es = _effective(stmt)
+    if len(es) != 1:
+        return False
+    e = es[0]
+    while e.kind == 'ExprWithCleanups' and e.kids:
+        e = e.kids[0]
+    return e.kind in ('ReturnStmt', 'CXXThrowExpr', 'ContinueStmt', 'BreakStmt')
+
+
+def _logical(op, a, b):
+    n = Node('BinaryOperator')
+    n.op = op
+    n.type = 'bool'
+    n.kids = [a, b]
+    n.file, n.line, n.col = a.file, a.line, a.col
+    return n
+
+
+def merge_split_guards(body):
+    """One guard, one `if`: `if (A) { if (B) S }` (neither with an else) is shown as
+    `if (A && B) S`, and `if (A) X; if (B) X;` with the same single exiting statement X as
+    `if (A || B) X`.  `&&` / `||` evaluate left to right and stop early exactly like the chain of
+    statements, so the rules read one compound test whichever way the guard was written."""
+    if body is None:
+        return
+    changed = True
+    while changed:
+        changed = False
+        for n in list(body.walk()):
+            if _plain_if(n):
+                es = _effective(n.kids[1])
+                if len(es) == 1 and _plain_if(es[0]) and n.kids[1] is not None:
+                    inner = es[0]
+                    # nothing else may live in the outer branch (a declaration would change scope
+                    # only, but keep to the exact shape)
+                    n.kids = [_logical('&&', n.kids[0], inner.kids[0]), inner.kids[1]]
+                    changed = True
+            if n.kind == 'CompoundStmt':
+                kids = n.kids
+                i = 0
+                while i < len(kids):
+                    a = kids[i]
+                    if _plain_if(a) and _exit_only(a.kids[1]):
+                        j = i + 1
+                        while j < len(kids) and not _effective(kids[j]) and \
+                                (kids[j] is None or kids[j].kind == 'NullStmt'):
+                            j += 1
+                        if j < len(kids) and _plain_if(kids[j]) and _exit_only(kids[j].kids[1]) and \
+                                _sig(_effective(a.kids[1])[0]) == _sig(_effective(kids[j].kids[1])[0]):
+                            a.kids = [_logical('||', a.kids[0], kids[j].kids[0]), a.kids[1]]
+                            del kids[i + 1:j + 1]
+                            changed = True
+                            continue
+                    i += 1
 
 
 def _is_constant(k):
